@@ -28,6 +28,8 @@ pub enum Shape {
     TimeAsUnix(TimeLit, Option<Zone>, u8, u8),
     /// x = D at T|H ; x as unix    (hour-only form when the bool is true)
     DateTimeVar(DateLit, TimeLit, bool),
+    /// x = D at T Z ; x as unix     (the time carries an explicit zone)
+    DateTimeZoneVar(DateLit, TimeLit, Zone),
     /// N to date as unix (one line)
     InverseLine(i64),
     /// x = N to [date|Z] ; x as unix
@@ -114,6 +116,19 @@ pub fn case_lines(c: &Case) -> Vec<Line> {
             } else {
                 l.push(t.tok());
             }
+            let mut l2 = Line::default();
+            l2.push(Tok::word("moment", Class::Var));
+            l2.push(Tok::word("as", Class::Conn));
+            l2.push(kw("unix"));
+            vec![l, l2]
+        }
+        Shape::DateTimeZoneVar(d, t, zn) => {
+            l.push(Tok::word("moment", Class::Var));
+            l.push(Tok::op('='));
+            push(&mut l, d.toks("en"));
+            l.push(Tok::word("at", Class::Conn));
+            l.push(t.tok());
+            l.push(z(zn));
             let mut l2 = Line::default();
             l2.push(Tok::word("moment", Class::Var));
             l2.push(Tok::word("as", Class::Conn));
@@ -356,6 +371,37 @@ impl Prop for Unix {
                     other => acc.fail(format!("expected a DateTime got {}", other.brief())),
                 }
             }
+            Shape::DateTimeZoneVar(d, t, zn) => {
+                kind = "datetime-with-explicit-zone-as-unix";
+                zone_off = zn.offset();
+                match &out.slots[0] {
+                    Slot::Ok { v: V::DateTime(ts, _, _), .. } => {
+                        n_for_class = Some(*ts);
+                        expect_raw(&mut acc, &last, *ts, "date-time as unix");
+                        // the time is written with its zone, so the instant is that wall clock at that offset on the day
+                        // D (when the instant's UTC clock falls on the same day; which day it is otherwise is not part of
+                        // this statement) ...
+                        let utc_secs = t.wall() - zn.offset() as i64 * 60;
+                        if acc.ok() && (0..86400).contains(&utc_secs) {
+                            let want = 86400 * days_from_civil(d.year(), d.m as i64, d.d as i64) + utc_secs;
+                            if *ts != want {
+                                acc.fail(format!("the date-time is the instant {}, but {} on that day is {}", ts, lines[0], want));
+                            }
+                        }
+                        // ... and it is the same instant whatever zone the calculator shows results in
+                        if acc.ok() && c.default_tz.is_some() {
+                            match w.eval(&Cfg::default(), "en", &text) {
+                                Ok(o) => match o.slots.first() {
+                                    Some(Slot::Ok { v: V::DateTime(ts0, _, _), .. }) if ts0 == ts => {}
+                                    other => acc.fail(format!("under the default zone {} the date-time is the instant {}, under UTC it is {:?}", dz.text(), ts, other.map(|s| s.brief()))),
+                                },
+                                Err(p) => acc.fail(format!("panic at {}: {}", p.site, p.message)),
+                            }
+                        }
+                    }
+                    other => acc.fail(format!("expected a DateTime got {}", other.brief())),
+                }
+            }
             Shape::InverseLine(n) => {
                 kind = "inverse";
                 n_for_class = Some(*n);
@@ -417,6 +463,7 @@ pub fn case_strategy() -> impl Strategy<Value = Case> {
             // `D at T`: a year-less date followed by a time is fine; the am/pm hour-only form stays a time
             Shape::DateTimeVar(d, TimeLit { form: t.form % 2, s: None, ..t }, h)
         }),
+        2 => (date_strategy(), crate::c11::time_strategy(), zone_strategy()).prop_map(|(d, t, z)| Shape::DateTimeZoneVar(d, TimeLit { form: t.form % 2, s: None, ..t }, z)),
         2 => ts_strategy().prop_map(Shape::InverseLine),
         2 => (ts_strategy(), prop::option::of(zone_strategy())).prop_map(|(n, z)| Shape::InverseVar(n, z)),
         2 => date_strategy().prop_map(Shape::DateRoundTrip),
